@@ -9,6 +9,7 @@ import itertools
 import random
 
 from ..absgrammar import Gen, all_texts, to_ebnf
+from .. import tlc
 from ..common import Check
 from ..impl import C04_MATRIX, run_matrix_case
 from ..pegcheck import Jobs, compare, default_case, run_impl, run_oracle, spec_outcome
@@ -105,9 +106,60 @@ def lr_cut_family(tier):
     return out
 
 
+def machine_part(ck, items, tier):
+    """TLC: PegMachine under every memo schedule (hit / forced miss), prune on/off, memoization on/off refines PegSem; the machine's
+    outcome is also compared with the implementation's (it is an exact transcription)."""
+    from ..pegcheck import machine_vs_impl, run_machine, with_marks
+    rnd = random.Random(4100 + ck.seed)
+    pick = [it for it in items if it.get('label') in ('random', 'retry')]
+    rnd.shuffle(pick)
+    pick = pick[:60 if tier == 'quick' else 600] + [it for it in items if it.get('lrfam')][:24 if tier == 'quick' else 200] \
+        + [it for it in items if str(it.get('label', '')).startswith('lr-')][:12 if tier == 'quick' else 100]
+    marked = with_marks([it['g'] for it in pick])
+    jobs, cases = Jobs(), []
+    variants = [('prune', {'prune': True, 'memoize': True}), ('noprune', {'prune': False, 'memoize': True}), ('nomemo', {'prune': True, 'memoize': False})]
+    for it, g in zip(pick, marked):
+        texts = [t for t in it['texts'] if len(t) <= 4][:40]
+        islr = any(r['lrec'] for r in g['rules'])
+        for vname, vk in variants:
+            if vname == 'nomemo' and islr:
+                continue
+            cfg = make_cfg(chars_of(g, texts), **{k: v for k, v in (it.get('cfg') or {}).items()})
+            cfg.update(vk)
+            cfg['maxmiss'] = 2
+            jobs.add(g, cfg, texts)
+            cases.append(default_case(to_ebnf(it['g']), texts, settings=it.get('settings'), wrap=False, **(it.get('case') or {})))
+    r, mach = run_machine(jobs)
+    ck.add_tlc(r, 'PegMachineMC (memo schedules x prune x memoization)')
+    if r.violated:
+        ck.violation({'kind': 'schedule', 'inputs': {'spec': 'PegMachineMC'}, 'expected': 'Refines, FramesBalanced, StepBound, CutContained under every schedule',
+                      'observed': r.violated, 'trace': r.trace[:120]}, key='machine' + r.violated)
+        return
+    if r.distinct < 3 * jobs.ncases():
+        raise tlc.MachineryError(f'vacuous PegMachine run: {r.distinct} states for {jobs.ncases()} cases')
+    from ..impl import run_model_case
+    impl = run_impl(cases, fn=run_model_case, chunk=4)
+    n = 0
+    for j, (c, im) in enumerate(zip(cases, impl), 1):
+        if im['compile']['k'] != 'ok':
+            continue
+        for t, ir in enumerate(im['res'], 1):
+            if t not in mach.get(j, {}):
+                raise tlc.MachineryError(f'PegMachineMC produced no final state for job {j} text {t}')
+            n += 1
+            why = machine_vs_impl(mach[j][t], ir['plain'])
+            if why:
+                ck.violation({'kind': 'parse', 'inputs': {'grammar': c['ebnf'], 'text': c['texts'][t - 1], 'settings': c['settings']},
+                              'expected': mach[j][t]['r'], 'observed': ir['plain'], 'why': why, 'spec': 'PegMachine (exact transcription)'},
+                             key='mach' + c['ebnf'] + why[:20])
+    ck.count(evaluations=n, traces=n)
+    ck.notes['machine_cases'] = n
+
+
 def run(tier):
     ck = Check('C04', tier)
     items = universe(tier, ck.seed)
+    machine_part(ck, items, tier)
     jobs, cases = Jobs(), []
     rcl, cls = tlc_classify([it['g'] for it in items])
     ck.add_tlc(rcl, 'PegUnspec')
